@@ -71,7 +71,7 @@ class C07(Check):
         "a successful one, write_block with pending records, append after an empty flush, or >=2 reopenings."
     )
     assumptions = ["a reopen is preceded by a flush (records never flushed before the writer is dropped are not 'submitted so far' at any flush)"]
-    required_labels = ["failed-then-success", "write_block-with-pending", "reopens>=2", "append-after-empty-flush", "family:empty", "family:rec", "family:flt", "stream:file", "validator:on", "validator:off", "auto-dump"]
+    required_labels = ["failed-then-success", "write_block-with-pending", "reopens>=2", "append-after-empty-flush", "family:empty", "family:rec", "family:flt", "stream:file", "validator:on", "validator:off", "auto-dump", "metadata-dict-reused", "block:iterated", "block:twice"]
     quick = (1200, 1)
     thorough = (1500, 16)
 
@@ -98,6 +98,7 @@ class C07(Check):
                 "validator": d.p(0.35),
                 "stream": d.choice(["bytesio", "bytesio", "file"]),
                 "parsed": d.p(0.3),
+                "metadata_used_before": d.choice([None, None, None] + codecs),
             }
             # donors
             donors = []
@@ -115,7 +116,7 @@ class C07(Check):
                 elif w == "flush":
                     ops.append(["flush"])
                 elif w == "block":
-                    ops.append(["block", d.i(len(donors)), d.i(8)])
+                    ops.append(["block", d.i(len(donors)), d.i(8), d.choice(["fresh", "fresh", "iterated", "twice", "peeked"])])
                 else:
                     args = {
                         "schema": d.choice(["none", "same", "different"]),
@@ -180,7 +181,7 @@ class C07(Check):
             for b in blks:
                 per_block.append([norm(r) for r in dn["records"][i : i + b.num_records]])
                 i += b.num_records
-            donors.append((blks, per_block))
+            donors.append((data, per_block))
 
         tmp = None
         if init["stream"] == "file":
@@ -213,6 +214,10 @@ class C07(Check):
         kw = dict(codec=init["codec"], sync_interval=init["sync_interval"], metadata=dict(init["metadata"]), validator=init["validator"])
         if init["marker"] is not None:
             kw["sync_marker"] = init["marker"]
+        if init.get("metadata_used_before"):
+            # the caller's metadata dict was already handed to another writer (other stream, other codec)
+            labels.add("metadata-dict-reused")
+            guard("write-container", fastavro.writer, io.BytesIO(), schema, [], codec=init["metadata_used_before"], metadata=kw["metadata"])
         w = guard("create-writer", Writer, fo, schema, **kw)
         model = []  # flushed or pending, in submission order
         header = None
@@ -225,7 +230,13 @@ class C07(Check):
 
         def check(after):
             nonlocal header
-            data = self._contents(fo)
+            # after a flush the stream itself must hold the records: a real file is read through an independent
+            # handle WITHOUT flushing it ourselves
+            if isinstance(fo, io.BytesIO):
+                data = fo.getvalue()
+            else:
+                with open(fo.name, "rb") as other:
+                    data = other.read()
             ctx = f"after {after}; history={history}; init={ {k: v for k, v in init.items() if k != 'metadata'} }"
             try:
                 pf = RC.parse(data)
@@ -282,15 +293,26 @@ class C07(Check):
                 pending = 0
                 check("flush")
             elif kind == "block":
-                blks, per_block = donors[op[1]]
+                ddata, per_block = donors[op[1]]
+                # a Block is a one-shot iterator over its payload: take fresh Block objects for every copy
+                blks = guard("read-donor-blocks", lambda: list(fastavro.block_reader(io.BytesIO(ddata))))
                 if not blks:
                     continue
                 bi = op[2] % len(blks)
                 history.append(f"write_block(donor#{op[1]}.block#{bi})")
                 if pending:
                     labels.add("write_block-with-pending")
+                mode = op[3] if len(op) > 3 else "fresh"
+                labels.add("block:" + mode)
+                if mode == "iterated":
+                    guard("iterate-block", lambda: list(blks[bi]))
+                elif mode == "peeked" and blks[bi].num_records:
+                    guard("iterate-block", lambda: next(iter(blks[bi])))
                 guard("write_block", w.write_block, blks[bi])
                 model.extend(per_block[bi])
+                if mode == "twice":
+                    guard("write_block", w.write_block, blks[bi])
+                    model.extend(per_block[bi])
                 pending = 0
                 submitted_since_flush += 1
             elif kind in ("reopen", "reopen_fn"):
